@@ -102,16 +102,26 @@ func zext(mem []byte, off, size uint64) []byte {
 }
 
 type exRun struct {
-	rec      *impl.Recorder
-	ret      []byte
-	left     uint64
-	err      error
-	addr     common.Address
-	pan      string
-	env      *impl.Env
-	created  []common.Address
-	touched  map[common.Address]map[common.Hash]bool
-	extraAdr map[common.Address]bool
+	transfers []transferObs
+	digest0   string
+	digest1   string
+	regs      []regObs
+	rec       *impl.Recorder
+	ret       []byte
+	left      uint64
+	err       error
+	addr      common.Address
+	pan       string
+	env       *impl.Env
+	created   []common.Address
+	touched   map[common.Address]map[common.Hash]bool
+	extraAdr  map[common.Address]bool
+}
+
+// regObs is a state-variable registration a journal instruction made (for the closing queries)
+type regObs struct {
+	self common.Address
+	name []byte
 }
 
 var exCaller = common.HexToAddress("0x00000000000000000000000000000000000ca11e")
@@ -131,9 +141,20 @@ func runScenario(cs *exCase, w *world, u progen.Universe, code0 []byte, debug bo
 			tr = plainLogger{rec}
 		}
 	}
-	env := impl.NewEnv(impl.Opts{Fork: cs.Fork, Tracer: tr, JP: cs.JP})
+	wrapTransfer := func(db vm.StateDB, from, to common.Address, amount *big.Int) {
+		o := transferObs{From: from, To: to, B0f: new(big.Int).Set(db.GetBalance(from)), B0t: new(big.Int).Set(db.GetBalance(to)), EventPos: len(rec.Events)}
+		db.SubBalance(from, amount)
+		db.AddBalance(to, amount)
+		o.B1f, o.B1t = new(big.Int).Set(db.GetBalance(from)), new(big.Int).Set(db.GetBalance(to))
+		r.transfers = append(r.transfers, o)
+	}
+	env := impl.NewEnv(impl.Opts{Fork: cs.Fork, Tracer: tr, JP: cs.JP, Transfer: wrapTransfer})
 	r.env = env
 	w.apply(env.State)
+	seenAddrs := map[common.Address]bool{exCaller: true, u.EOA: true, u.Empty: true}
+	for _, a := range u.Contracts {
+		seenAddrs[a] = true
+	}
 	installHost()
 	// bindings and behaviours
 	impl.Provider.Reset()
@@ -193,6 +214,24 @@ func runScenario(cs *exCase, w *world, u progen.Universe, code0 []byte, debug bo
 		if e.HasErr {
 			return
 		}
+		if n := len(e.Stack); n >= 2 {
+			switch e.Op {
+			case 0xf1, 0xf2, 0xf4, 0xfa:
+				seenAddrs[common.Address(e.Stack[n-2].Bytes20())] = true
+			case 0xff:
+				seenAddrs[common.Address(e.Stack[n-1].Bytes20())] = true
+			}
+		}
+		e.Digest = worldDigest(env.State, seenAddrs, r.touched)
+		if (e.Op == 0xe0 || e.Op == 0xe1) && len(e.Stack) >= 1 && e.Stack[len(e.Stack)-1].IsUint64() {
+			ptr := e.Stack[len(e.Stack)-1].Uint64()
+			if ptr+32 <= uint64(len(e.Mem)) {
+				ln := new(big.Int).SetBytes(e.Mem[ptr : ptr+32])
+				if ln.IsUint64() && ptr+32+ln.Uint64() <= uint64(len(e.Mem)) {
+					r.regs = append(r.regs, regObs{self: e.Self, name: append([]byte{}, e.Mem[ptr+32:ptr+32+ln.Uint64()]...)})
+				}
+			}
+		}
 		switch e.Op {
 		case 0xf1, 0xf2, 0xf4, 0xfa:
 			e.Used = evmv.FieldByName("callGasTemp").Uint()
@@ -202,6 +241,7 @@ func runScenario(cs *exCase, w *world, u progen.Universe, code0 []byte, debug bo
 				off, size := e.Stack[n-2].Uint64(), e.Stack[n-3].Uint64()
 				init := zext(e.Mem, off, size)
 				if e.Op == 0xf0 {
+					seenAddrs[crypto.CreateAddress(e.Self, env.State.GetNonce(e.Self))] = true
 					e.To = crypto.CreateAddress(e.Self, env.State.GetNonce(e.Self))
 				} else {
 					salt := e.Stack[n-4].Bytes32()
@@ -250,6 +290,8 @@ func runScenario(cs *exCase, w *world, u progen.Universe, code0 []byte, debug bo
 	}
 	value := new(big.Int).SetUint64(cs.Value)
 	caller := vm.AccountRef(exCaller)
+	r.digest0 = worldDigest(env.State, seenAddrs, r.touched)
+	defer func() { r.digest1 = worldDigest(env.State, seenAddrs, r.touched) }()
 	r.pan = impl.Guard(func() {
 		ctx := context.Background()
 		switch cs.Entry {
@@ -678,6 +720,7 @@ func cmdExec(args []string) error {
 			continue
 		}
 		cs.Line = line
+		cs.Oracle = append(cs.Oracle, frameOracles(&cs, run, run.transfers, run.digest0, run.digest1)...)
 		if run.err != nil {
 			cs.Result = run.err.Error()
 		} else {
@@ -707,6 +750,7 @@ func cmdExec(args []string) error {
 			}
 			line2, _ := buildExecLineFrom(&cs2, run, run2, w, u, code0)
 			cs2.Line = line2
+			cs2.Oracle = append(cs2.Oracle, frameOracles(&cs2, run2, run2.transfers, run2.digest0, run2.digest1)...)
 			stats["debug-off"]++
 			cases = append(cases, cs2)
 			sb.WriteString(line2 + "\n")
@@ -857,6 +901,19 @@ func buildExecLineFrom(cs *exCase, scriptRun, obsRun *exRun, w *world, u progen.
 	}
 	for a := range p.extra {
 		addA(a)
+	}
+	regSeen := map[string]bool{}
+	for _, rg := range scriptRun.regs {
+		k := string(rg.self[:]) + "/" + string(rg.name)
+		if regSeen[k] {
+			continue
+		}
+		regSeen[k] = true
+		l.Open().N(10)
+		impl.AddrN(l, rg.self)
+		l.B(rg.name).Open().Close()
+		impl.DumpKey(l, tr.StateChanges().FindKeyIndices(rg.self, string(rg.name)))
+		l.Close()
 	}
 	sort.Slice(addrs, func(i, j int) bool { return bytes.Compare(addrs[i][:], addrs[j][:]) < 0 })
 	for _, a := range addrs {
